@@ -715,7 +715,9 @@ class Message:
         if not parsed.hostname:
             raise error.MalformedUrlError("CoAP URIs need a hostname")
 
-        if parsed.username or parsed.password:
+        if parsed.username is not None or parsed.password is not None:
+            # (also when they are empty, as in "coap://@host/": the user
+            # info would otherwise stay in the remote's hostinfo)
             raise error.MalformedUrlError("User name and password not supported.")
 
         try:
